@@ -7,6 +7,7 @@ V = Path(__file__).resolve().parent.parent
 
 # finding id -> (property, commit, what failed)
 FIXED = {
+    ("C01", "tuple-assign-global-in-helper"): ("dda3a1b", "a tuple assignment to `global` names inside a helper declared locals instead of assigning the globals"),
     ("C09", "list-alias-shallow-copy"): ("b5d87be", "`b = a` for a list shared the buffer: a later append / re-assignment through either name freed it under the other (heap-use-after-free)"),
     ("C09", "list-created-in-loop-leaks"): ("b5d87be", "a list created while loop() runs was never freed (no destructor): the heap grew every pass"),
     ("C15", "button-declared-in-loop-startup-click"): ("a4c5e9b", "a Button constructed inside the main loop got no initial sample: held down at power-up it fired on_click in pass 1"),
